@@ -709,7 +709,9 @@ class TBRMatchedMarkets:
         if (budget_range is not None) and (self._constraint_not_satisfied(
             req_budget, budget_range[0], budget_range[1])):
           continue
-        design_score = TBRMMScore(design_diag)
+        # deepcopy as in the exhaustive search: the score is evaluated lazily and
+        # must not depend on what happens to the parameter object afterwards.
+        design_score = TBRMMScore(copy.deepcopy(design_diag))
         design = TBRMMDesign(
             design_score, group_star_trt[k], group_star_ctl[k],
             copy.deepcopy(design_diag))
